@@ -79,6 +79,8 @@ var bytesAxioms = []smtAxiom{
 	{"bupd_slice", []string{"bupd", "bslice"}, `(assert (forall ((b Bytes) (o Int) (x Bytes) (lo Int) (hi Int)) (! (=> (and (<= 0 o) (<= (+ o (blen x)) (blen b)) (<= 0 lo) (<= lo hi) (<= hi (blen b))) (and (=> (and (<= o lo) (<= hi (+ o (blen x)))) (= (bslice (bupd b o x) lo hi) (bslice x (- lo o) (- hi o)))) (=> (or (<= hi o) (>= lo (+ o (blen x)))) (= (bslice (bupd b o x) lo hi) (bslice b lo hi))) (=> (and (< lo o) (< o hi) (<= hi (+ o (blen x)))) (= (bslice (bupd b o x) lo hi) (bcat (bslice b lo o) (bslice x 0 (- hi o))))) (=> (and (<= o lo) (< lo (+ o (blen x))) (< (+ o (blen x)) hi)) (= (bslice (bupd b o x) lo hi) (bcat (bslice x (- lo o) (blen x)) (bslice b (+ o (blen x)) hi)))) (=> (and (< lo o) (< (+ o (blen x)) hi)) (= (bslice (bupd b o x) lo hi) (bcat (bslice b lo o) (bcat x (bslice b (+ o (blen x)) hi))))))) :pattern ((bslice (bupd b o x) lo hi)))))`},
 	{"bupd_at", []string{"bupd", "bat"}, `(assert (forall ((b Bytes) (o Int) (x Bytes) (i Int)) (! (=> (and (<= 0 o) (<= (+ o (blen x)) (blen b))) (= (bat (bupd b o x) i) (ite (and (<= o i) (< i (+ o (blen x)))) (bat x (- i o)) (bat b i)))) :pattern ((bat (bupd b o x) i)))))`},
 	{"bupd_full", []string{"bupd"}, `(assert (forall ((b Bytes) (o Int) (x Bytes)) (! (=> (and (= o 0) (= (blen x) (blen b))) (= (bupd b o x) x)) :pattern ((bupd b o x)))))`},
+	{"bupd_prefix", []string{"bupd", "bcat"}, `(assert (forall ((b Bytes) (o Int) (x Bytes)) (! (=> (and (= o 0) (<= (blen x) (blen b))) (= (bupd b o x) (bcat x (bslice b (blen x) (blen b))))) :pattern ((bupd b o x)))))`},
+	{"bzero_slice", []string{"bzero", "bslice"}, `(assert (forall ((n Int) (lo Int) (hi Int)) (! (=> (and (<= 0 lo) (<= lo hi) (<= hi n)) (= (bslice (bzero n) lo hi) (bzero (- hi lo)))) :pattern ((bslice (bzero n) lo hi)))))`},
 	{"bset_len", []string{"bset"}, `(assert (forall ((b Bytes) (i Int) (v Int)) (! (= (blen (bset b i v)) (blen b)) :pattern ((bset b i v)))))`},
 	{"bset_at", []string{"bset", "bat"}, `(assert (forall ((b Bytes) (i Int) (v Int) (j Int)) (! (=> (and (<= 0 i) (< i (blen b)) (<= 0 v) (< v 256)) (= (bat (bset b i v) j) (ite (= j i) v (bat b j)))) :pattern ((bat (bset b i v) j)))))`},
 	{"bset_slice", []string{"bset", "bslice"}, `(assert (forall ((b Bytes) (i Int) (v Int) (lo Int) (hi Int)) (! (=> (or (<= hi i) (> lo i)) (= (bslice (bset b i v) lo hi) (bslice b lo hi))) :pattern ((bslice (bset b i v) lo hi)))))`},
@@ -293,6 +295,13 @@ func (w *World) StructGet(t types.Type, v Term, i int) Term {
 	w.structSort(t, st)
 	name := "S_" + w.structName(t)
 	f := st.Field(i)
+	// accessor applied to a constructor term: fold
+	mk := smtSym("mk_" + name)
+	if strings.HasPrefix(v.S, "("+mk+" ") {
+		if parts := splitSexp(v.S); len(parts) == st.NumFields()+1 {
+			return Term{parts[i+1], w.SortOf(f.Type())}
+		}
+	}
 	return App(w.SortOf(f.Type()), smtSym(accName(name, f.Name(), i)), v)
 }
 
